@@ -197,7 +197,8 @@ theorem C13_matcher : C13_matcher_full matcherKey := by
 /-! ### regenerated facts: the formats in the source are the ones modelled -/
 
 theorem C13_postings_preimage_fact :
-    Thanos.Facts.postingsKeyPreimage = "lbl.Name + \":\" + lbl.Value" := by decide
+    Thanos.Facts.postingsKeyPreimage = "lbl.Name + \":\" + lbl.Value" ∧
+    Thanos.Facts.labelMatchersWrites = ["lbl.String()", "';'"] := by decide
 
 theorem C13_matcher_key_fact :
     Thanos.Facts.matcherKeyWrites =
